@@ -722,6 +722,12 @@ func (e *Engine) step(st *State) int {
 	case *ssa.DebugRef:
 		f.ip++
 	case *ssa.Jump:
+		if handled, alive := e.tryFillLoop(st, f, f.blk, f.blk.Succs[0]); handled {
+			if !alive {
+				return stDone
+			}
+			return stCont
+		}
 		e.gotoBlock(st, f, f.blk.Succs[0])
 	case *ssa.If:
 		c := e.eval(st, f, x.Cond).(*Term)
